@@ -368,5 +368,39 @@ theorem dump_succeeds_iff {f : File} {path : Option Loc} {name : String} {b : By
             · rw [hmx] at h1; cases h1
             · rw [hmx] at h1; cases h1; omega
 
+/-! ## streams -/
+
+/-- Rewinding and reading gives everything the stream holds, wherever it was positioned,
+    and leaves it at its end. -/
+theorem Stream.seek0_read (s : Stream) :
+    (s.seek 0).read = (s.data, ⟨s.data, s.data.length⟩) := by
+  simp [Stream.seek, Stream.read]
+
+/-- Reading WITHOUT rewinding returns only what lies after the position. -/
+theorem Stream.read_fst (s : Stream) : s.read.1 = s.data.drop s.pos := rfl
+
+/-- A fresh stream written to once holds exactly what was written and is positioned at its END. -/
+theorem Stream.empty_write (b : Bytes) : Stream.empty.write b = ⟨b, b.length⟩ := by
+  cases b with
+  | nil => rfl
+  | cons x r => simp [Stream.write, Stream.empty]
+
+theorem dumpPickleStream_eq (f : File) (path : Option Loc) (name : String) (s : Stream) :
+    dumpPickleStream f path name s = (dumpPickleToHdf f path name s.data, ⟨s.data, s.data.length⟩) := by
+  simp [dumpPickleStream, Stream.seek0_read]
+
+/-! ## several files -/
+
+@[simp] theorem World.set_same (w : World) (i : Nat) (f : File) : (w.set i f) i = f := by
+  simp [World.set]
+
+theorem World.set_ne (w : World) {i j : Nat} (h : j ≠ i) (f : File) : (w.set i f) j = w j := by
+  simp [World.set, h]
+
+theorem World.dump_eq (w : World) (i : Nat) (path : Option Loc) (name : String) (s : Stream) :
+    w.dump i path name s =
+      (w.set i (dumpPickleToHdf (w i) path name s.data).1, (dumpPickleToHdf (w i) path name s.data).2) := by
+  simp [World.dump, dumpPickleStream_eq]
+
 end Checkpoint
 end Epsie
